@@ -31,6 +31,19 @@ def V2(prop, kind, name, file, edits, rule=None):
     return {'prop': prop, 'kind': kind, 'name': name, 'file': file, 'edits': edits, 'rule': rule}
 
 
+def P(prop, kind, name, patch, rule=None):
+    """variant given as a patch file under sa/twins/ (edits spanning several files)"""
+    import os
+    return {'prop': prop, 'kind': kind, 'name': name, 'patch': os.path.join(os.path.dirname(os.path.abspath(__file__)), 'twins', patch), 'rule': rule}
+
+
+FIL = 'jedi/inference/filters.py'
+KLS = 'jedi/inference/value/klass.py'
+MOD = 'jedi/inference/value/module.py'
+GST = 'jedi/inference/compiled/getattr_static.py'
+SYS = 'jedi/inference/sys_path.py'
+INS = 'jedi/inference/value/instance.py'
+
 VARIANTS = [
     # ------------------------------------------------------------------ C14
     V('C14', 'B', 'read handler narrowed to EOFError', SUB, 'except (EOFError, pickle.UnpicklingError) as eof_error:', 'except EOFError as eof_error:', 'C14.b'),
@@ -187,7 +200,7 @@ VARIANTS = [
     # ------------------------------------------------------------------ C16
     V('C16', 'B', 'infer returns unsorted', API, "        return helpers.sorted_definitions(set(defs))\n\n    @validate_line_column\n    def goto(", "        return list(set(defs))\n\n    @validate_line_column\n    def goto(", 'C16.a'),
     V('C16', 'B', 'reset removed from infer', API, "        self._inference_state.reset_recursion_limitations()\n        pos = line, column\n        leaf = self._module_node.get_name_of_position(pos)", "        pos = line, column\n        leaf = self._module_node.get_name_of_position(pos)", 'C16.b'),
-    V('C16', 'B', 'predefine_names without finally', CTX, "        predefined[flow_scope] = dct\n        try:\n            yield\n        finally:\n            del predefined[flow_scope]", "        predefined[flow_scope] = dct\n        yield\n        del predefined[flow_scope]", 'C16.c'),
+    V('C16', 'B', 'predefine_names without finally', CTX, "        try:\n            yield\n        finally:\n            if previous is None:\n                del predefined[flow_scope]\n            else:\n                predefined[flow_scope] = previous", "        yield\n        if previous is None:\n            del predefined[flow_scope]\n        else:\n            predefined[flow_scope] = previous", 'C16.c'),
     V('C16', 'B', 'sorted_definitions keyed on id', HLP, "                                       x.name))", "                                       id(x)))", 'C16.d'),
     V('C16', 'B', 'new temporary switch without restore', REF, "def _find_names(module_context, tree_name):\n", "def _quick_names(module_context, tree_name):\n    module_context.inference_state.flow_analysis_enabled = False\n    return _find_names(module_context, tree_name)\n\n\ndef _find_names(module_context, tree_name):\n", 'C16.c'),
     V('C16', 'S', 'equivalent sort through list.sort', API, "        return helpers.sorted_definitions(set(defs))\n\n    @validate_line_column\n    def goto(", "        result = helpers.sorted_definitions(set(defs))\n        return result\n\n    @validate_line_column\n    def goto("),
@@ -263,4 +276,38 @@ VARIANTS = [
     R('C19', 'rename p in gitignored_paths', REF, 'gitignored_paths', 'p', 'pattern'),
     R('C20', 'rename suffixed in _get_sys_path', PRJ, 'Project._get_sys_path', 'suffixed', 'tail'),
     R('C20', 'rename data in save', PRJ, 'Project.save', 'data', 'payload'),
+    # ------------------------------------------------------------------ rules added after the wave 3 blind evaluation
+    V('C03', 'B', 'lone candidate skips the flow check', FIL, "        names = [n for n in names if self._is_name_reachable(n)]\n        return list(self._check_flows(names))",
+      "        names = [n for n in names if self._is_name_reachable(n)]\n        if len(names) == 1:\n            return names\n        return list(self._check_flows(names))", 'C03.d'),
+    V('C03', 'S', 'flow check result through a local', FIL, "        return list(self._check_flows(names))", "        checked = list(self._check_flows(names))\n        return checked"),
+    V('C04', 'B', 'mro enumeration stops at the first known class', KLS, "                        if cls_new not in mro:\n                            mro.append(cls_new)\n                            yield cls_new",
+      "                        if cls_new in mro:\n                            break\n                        mro.append(cls_new)\n                        yield cls_new", 'C04.h'),
+    V('C04', 'S', 'mro membership test as continue', KLS, "                        if cls_new not in mro:\n                            mro.append(cls_new)\n                            yield cls_new",
+      "                        if cls_new in mro:\n                            continue\n                        mro.append(cls_new)\n                        yield cls_new"),
+    V('C04', 'B', 'star imports one level only', MOD, "                        modules += module.star_imports()\n", "                        pass\n", 'C04.h'),
+    R('C04', 'rename module in star_imports', MOD, 'ModuleMixin.star_imports', 'module', 'imported'),
+    V('C05', 'B', 'byte prefilter before decoding', REF, "    code = python_bytes_to_unicode(code, errors='replace')\n",
+      "    if isinstance(code, bytes) and b'def' not in code:\n        return None\n    code = python_bytes_to_unicode(code, errors='replace')\n", 'C05.e'),
+    V('C19', 'B', 'byte prefilter before decoding', REF, "    code = python_bytes_to_unicode(code, errors='replace')\n",
+      "    if isinstance(code, bytes) and b'def' not in code:\n        return None\n    code = python_bytes_to_unicode(code, errors='replace')\n", 'C19.c'),
+    V('C19', 'S', 'regex miss spelled `is None`', REF, "    if not regex.search(code):\n        return None", "    if regex.search(code) is None:\n        return None"),
+    P('C07', 'S', 'until position helper that checks before indexing', 'c07_until_pos_helper_checked.diff'),
+    V('C13', 'B', 'instance dict asked through its bound get', GST, "    return dict.get(instance_dict, attr, _sentinel)", "    return instance_dict.get(attr, _sentinel)", 'C13.f'),
+    V('C13', 'B', 'instance dict membership test', GST, "    return dict.get(instance_dict, attr, _sentinel)", "    if attr in instance_dict:\n        return dict.get(instance_dict, attr, _sentinel)\n    return _sentinel", 'C13.f'),
+    V('C13', 'S', 'instance dict result through a local', GST, "    return dict.get(instance_dict, attr, _sentinel)", "    found = dict.get(instance_dict, attr, _sentinel)\n    return found"),
+    V('C13', 'B', 'array type by ABC', ACC, "        if isinstance(self._obj, dict):\n            return 'dict'", "        if hasattr(self._obj, 'keys'):\n            return 'dict'", 'C13.g'),
+    V('C13', 'S', 'array type by exact type', ACC, "        if isinstance(self._obj, dict):\n            return 'dict'", "        if type(self._obj) is dict:\n            return 'dict'"),
+    V('C14', 'B', 'strict decode of the dead helper\'s stderr', SUB, "stderr.read().decode('utf-8', 'replace')", "stderr.read().decode('utf-8')", 'C14.b'),
+    V('C14', 'S', 'errors= keyword for the stderr decode', SUB, "stderr.read().decode('utf-8', 'replace')", "stderr.read().decode('utf-8', errors='replace')"),
+    V('C14', 'B', 'listener ships KeyboardInterrupt to the host', SUB, "            except Exception as e:\n                result = True,", "            except (Exception, KeyboardInterrupt) as e:\n                result = True,", 'C14.f'),
+    P('C16', 'S', 'detectors reset in place, every field', 'c16_reset_in_place_complete.diff'),
+    V('C16', 'B', 'search path additions de-duplicated through a set', SYS, "    return added\n", "    return list(set(added))\n", 'C16.e'),
+    V('C16', 'S', 'search path additions de-duplicated and sorted', SYS, "    return added\n", "    return sorted(set(added))\n"),
+    V('C16', 'B', 'set iteration appended to a result', API, "        defs = [classes.Name(self._inference_state, d) for d in set(names)]\n        # Avoid duplicates\n        return helpers.sorted_definitions(set(defs))",
+      "        defs = [classes.Name(self._inference_state, d) for d in set(names)]\n        return defs", 'C16.e'),
+    V('C18', 'B', 'self-name context stops at the method', INS, "        return context.create_context(node)", "        return context", 'C18.e'),
+    V('C18', 'S', 'self-name context through a local', INS, "        return context.create_context(node)", "        inner = context.create_context(node)\n        return inner"),
+    V('C20', 'B', 'package directories skipped before the config is tried', PRJ, "    for dir in chain([check], check.parents):\n        try:",
+      "    for dir in chain([check], check.parents):\n        if dir.name == '__pycache__':\n            continue\n        try:", 'C20.e'),
+    V('C20', 'S', 'loaded project returned through a local', PRJ, "            return Project.load(dir)\n        except (FileNotFoundError", "            loaded = Project.load(dir)\n            return loaded\n        except (FileNotFoundError"),
 ]
